@@ -59,8 +59,11 @@ def kindOf? : String → Option Kind
   | "X" => some .raises
   | _ => none
 
+/-- `inf` / `-inf`: float("inf") is a number beyond the clamp (any such value gives confidence 1 / 0);
+    `nan`: float("nan") is rejected like a non-numeric confidence -/
 def confOf (s : String) : Conf :=
-  if s = "none" then .absent else if s = "bad" then .bad else .num (ratOf s)
+  if s = "none" then .absent else if s = "bad" || s = "nan" then .bad
+  else if s = "inf" then .num 2 else if s = "-inf" then .num (-1) else .num (ratOf s)
 
 /-- one ballot token `K:weight:rel:conf`; weight / rel `_` = keep what the profile has -/
 structure Tok where
